@@ -96,6 +96,9 @@ def tsm_family(rep, tier, seed, replay=None):
     from props import C09
     binaries, bad = tsm.build(corefam.ALL_CONFIGS, starpu=True)
     if not binaries:
+        if bad:
+            first = sorted(bad.items())[0]
+            rep.violation("harness-does-not-compile:tsm", first[1][-4000:], False, "no configuration of harness/h_tsm.cpp compiles against /repo/src (the target/source interface changed)")
         return
     usable = [c for c in corefam.ALL_CONFIGS if c in binaries]
     cases = [tsm.parse_replay(replay)] if replay else C09.gen_cases("quick", seed + 31, usable)[:(40 if tier == "quick" else 500)]
